@@ -52,11 +52,18 @@ class Group:
         del self.__dict__['self']
 
 
+LOOP_LINES = {}
+
+
 def show_loops(gb, workdir):
     r = run(['goto-instrument', '--show-loops', gb], 120)
     loops = []
-    for m in re.finditer(r'^Loop (\S+):', r['out'], re.M):
+    for m in re.finditer(r'^Loop (\S+):\s*\n\s*file \S+ line (\d+)', r['out'], re.M):
         loops.append(m.group(1))
+        LOOP_LINES[m.group(1)] = int(m.group(2))
+    if not loops:
+        for m in re.finditer(r'^Loop (\S+):', r['out'], re.M):
+            loops.append(m.group(1))
     return loops
 
 
@@ -82,16 +89,29 @@ def prove_group(cfile, g, workdir, canary=False):
     uw = []
     for l in loops:
         fn = l.rsplit('.', 1)[0]
-        if fn in g.no_unwind_funcs:
+        if fn in g.no_unwind_funcs and not (g.unwindset and isinstance(g.unwindset.get(fn), (list, tuple))):
             continue
         if g.unwindset and l in g.unwindset:
             if g.unwindset[l] is None:
                 continue
             uw.append('%s:%d' % (l, g.unwindset[l]))
         elif g.unwindset and fn in g.unwindset:
-            if g.unwindset[fn] is None:
+            b = g.unwindset[fn]
+            if b is None:
                 continue
-            uw.append('%s:%d' % (l, g.unwindset[fn]))
+            if isinstance(b, (list, tuple)):
+                # one bound per loop of the function, in source-line order
+                same = sorted([x for x in loops if x.rsplit('.', 1)[0] == fn], key=lambda x: LOOP_LINES.get(x, 0))
+                idx = same.index(l)
+                if idx >= len(b):
+                    res['reason'] = 'unwind list for %s has %d entries, function has %d loops' % (fn, len(b), len(same))
+                    res['secs'] = time.time() - t0
+                    return res
+                if b[idx] is None:
+                    continue
+                uw.append('%s:%d' % (l, b[idx]))
+            else:
+                uw.append('%s:%d' % (l, b))
         elif g.unwind is not None:
             uw.append('%s:%d' % (l, g.unwind))
         else:
